@@ -452,7 +452,7 @@ def run(unit):
     elif unit[0] == 'opmatrix':
         # every comparison, connective and inclusion at the top of a predicate (and once below `not`), over plain /
         # alias / literal operands: negate, both replacements and the event rewrite on each; join over all pairs
-        opnds = ['x', 'y', '@A.x', '0', '1', '-1', 'x + 1']
+        opnds = ['x', 'y', '@A.x', '0', '1', '-1', 'x + 1']  # noqa: E501
         texts = []
         for op in ('=', '!=', '<', '<=', '>', '>='):
             for a in opnds:
@@ -464,6 +464,17 @@ def run(unit):
                 for b_ in ('q', 'y <= 1', '@A.x >= x'):
                     texts.append(f'{a} {op} {b_}')
         texts += ['x in {0, 1}', 'x in [0 to 1]', 'not x in ![0 to @A.x]', 'x in xs', 'forall i in xs: @i >= x', 'exists i in xs: @i != @A.x']
+        # quantifiers whose domain is a literal range or set that mentions the message or the alias (6+ nodes, beyond the
+        # term bound of the quick tier): the rewrites must reach the bounds / members of the domain as well as the body
+        refs = ('x', '@A.x', 'len(@A.xs)', 'len(xs)', 'x + @A.x')
+        for q in ('forall', 'exists'):
+            for ref in refs:
+                for dom in (f'[0 to {ref}]', f'![{ref} to 9]', f'[{ref} to {ref}]!', f'{{{ref}}}', f'{{1, {ref}}}', f'{{{ref}, y, 3}}'):
+                    for body in ('@i > 0', 'xs[@i] > @A.y', '@i = y'):
+                        if q == 'exists' and body != '@i > 0' and dom[0] != '{':
+                            continue
+                        texts.append(f'{q} i in {dom}: {body}')
+            texts.append(f'{q} i in [0 to @A.x]: {q} j in {{@i, x}}: @j > @A.y')
         texts += [f'not ({t})' for t in texts[::7]]
         preds = []
         for text in texts:
@@ -559,7 +570,7 @@ def replay(w):
 def describe(tier):
     b = bounds(tier)
     return {
-        'rule': f"every Bool/Num term with <= {b['nodes']} nodes over x @A.x @B.y 1 p @A.p True False xs @A.xs with + - = < and or implies not unary-minus abs len sum max, sets, ranges, xs[..], inclusion and both quantifiers (references therefore occur in operands, set elements, range bounds, indices, accessed objects, quantifier domains and bodies, function arguments); each as expression and (Bool) as predicate: both replacements for aliases Z (unused), A, B compared with the abstract substitution and by evaluation with the alias bound to the message, inverse law, negate (also of predicates derived from an already negated one), event alias rewriting through four construction routes; 32 API-built calls with several arguments (max / min / gcd / atan2 / log) with a reference in each argument position; all ordered pairs of predicates with <= {b['pair_nodes']} nodes for join. x every valuation of the grid. Terms with <= 4 nodes that mention an alias are repeated under two renamings to names with several letters (Pose / msg / Zed; Ab / A / AbZ - one a prefix of the other), passed as str objects of their own. Plus an operator matrix: all six comparisons over 7 operand shapes, the four connectives, inclusions and quantifiers at the top of a predicate (and below `not`): negate (once and twice), both replacements, the event rewrite, and join over a slice of the pairs.",
+        'rule': f"every Bool/Num term with <= {b['nodes']} nodes over x @A.x @B.y 1 p @A.p True False xs @A.xs with + - = < and or implies not unary-minus abs len sum max, sets, ranges, xs[..], inclusion and both quantifiers (references therefore occur in operands, set elements, range bounds, indices, accessed objects, quantifier domains and bodies, function arguments); each as expression and (Bool) as predicate: both replacements for aliases Z (unused), A, B compared with the abstract substitution and by evaluation with the alias bound to the message, inverse law, negate (also of predicates derived from an already negated one), event alias rewriting through four construction routes; 32 API-built calls with several arguments (max / min / gcd / atan2 / log) with a reference in each argument position; all ordered pairs of predicates with <= {b['pair_nodes']} nodes for join. x every valuation of the grid. Terms with <= 4 nodes that mention an alias are repeated under two renamings to names with several letters (Pose / msg / Zed; Ab / A / AbZ - one a prefix of the other), passed as str objects of their own. Plus an operator matrix: all six comparisons over 7 operand shapes, the four connectives, inclusions and quantifiers at the top of a predicate (and below `not`), both quantifiers over literal ranges and sets whose bounds or members mention the message, the alias or both (3 bodies; two nested ones): negate (once and twice), both replacements, the event rewrite, and join over a slice of the pairs.",
         'bounds': b,
         'exhaustive': True,
         'assumptions': ['reference evaluator; aliases captured by a quantifier are outside the alphabet (quantified variables are i, j)'],
